@@ -11,7 +11,7 @@ use std::time::Duration;
 fn with_timeout<F: 'static + Send + FnOnce() -> Result<(), String>>(what: &str, f: F) -> Result<(), String> {
     let (tx, rx) = mpsc::channel();
     thread::spawn(move || { let r = std::panic::catch_unwind(std::panic::AssertUnwindSafe(f)).unwrap_or_else(|_| Err("panicked".to_string())); tx.send(r).ok(); });
-    match rx.recv_timeout(Duration::from_secs(4)) { Ok(r) => r.map_err(|e| format!("{}: {}", what, e)), Err(_) => Err(format!("{}: did not return within 4s", what)) }
+    match rx.recv_timeout(desync_replay::secs(4)) { Ok(r) => r.map_err(|e| format!("{}: {}", what, e)), Err(_) => Err(format!("{}: did not return within 4s", what)) }
 }
 
 fn sync_value(sched: &Arc<Scheduler>, finished_first: bool) -> Result<(), String> {
@@ -34,7 +34,7 @@ fn future_sync_method_returns_the_value_in_every_context() {
             let qa = s.create_job_queue(); let s2 = s.clone();
             let (tx, rx) = mpsc::channel();
             s.desync(&qa, move || { tx.send(sync_value(&s2, finished_first)).ok(); });
-            rx.recv_timeout(Duration::from_secs(3)).map_err(|_| "job never reported".to_string())?
+            rx.recv_timeout(desync_replay::secs(3)).map_err(|_| "job never reported".to_string())?
         });
         if let Err(e) = r { failures.push(format!("finished_first={} {}", finished_first, e)); }
         // inside a job that a polling task runs itself (no pool thread / all busy)
@@ -43,7 +43,7 @@ fn future_sync_method_returns_the_value_in_every_context() {
                 let s = Arc::new(Scheduler::new()); s.set_max_threads(pool); s.despawn_threads_if_overloaded();
                 let gate = Arc::new((Mutex::new(false), Condvar::new()));
                 for _ in 0..pool { let q = s.create_job_queue(); let g = gate.clone(); s.desync(&q, move || { let mut x = g.0.lock().unwrap(); while !*x { x = g.1.wait(x).unwrap(); } }); }
-                thread::sleep(Duration::from_millis(50));
+                thread::sleep(desync_replay::ms(50));
                 let qa = s.create_job_queue(); let s2 = s.clone();
                 let (tx, rx) = mpsc::channel();
                 s.desync(&qa, move || { tx.send(sync_value(&s2, finished_first)).ok(); });
@@ -51,7 +51,7 @@ fn future_sync_method_returns_the_value_in_every_context() {
                 let got = executor::block_on(fut);
                 { *gate.0.lock().unwrap() = true; gate.1.notify_all(); }
                 if got != Ok(1) { return Err("outer future did not resolve".to_string()); }
-                rx.recv_timeout(Duration::from_secs(3)).map_err(|_| "job never reported".to_string())?
+                rx.recv_timeout(desync_replay::secs(3)).map_err(|_| "job never reported".to_string())?
             });
             if let Err(e) = r { failures.push(format!("finished_first={} pool={} {}", finished_first, pool, e)); }
         }
